@@ -39,10 +39,10 @@ func TestC11(t *testing.T) {
 			}
 			b := gen.New(rt, o)
 			b.OpenNonComparable = s.Open("F-ZERO-NONCOMPARABLE")
-		b.OpenPtrSrcWhole = s.Open("F-UPDATE-PTRSRC-WHOLE")
+			b.OpenPtrSrcWhole = s.Open("F-UPDATE-PTRSRC-WHOLE")
 			b.OpenNestedStale = s.Open("F-UPDATE-NESTED-STALE")
 			b.OpenNilPtrSub = s.Open("F-UPDATE-NILLABLE-CALL")
-		b.OpenNilPtrSub = s.Open("F-UPDATE-NILLABLE-CALL")
+			b.OpenNilPtrSub = s.Open("F-UPDATE-NILLABLE-CALL")
 			n := rapid.IntRange(1, 3).Draw(rt, "nmethods")
 			for i := 0; i < n; i++ {
 				b.DefaultMethod(fmt.Sprintf("D%d", i), o.MaxDepth)
@@ -93,10 +93,17 @@ func TestC11(t *testing.T) {
 		rapid.Check(t, func(rt *rapid.T) {
 			// *T -> U somewhere, flag withheld: generation must fail (and succeed with it)
 			for k := 0; k < 5; k++ {
-				o := gen.Opts{MaxDepth: rapid.IntRange(1, 3).Draw(rt, "maxdepth"), Flags: true, PtrHeavy: true, MaxFields: 3}
+				withDefault := rapid.IntRange(0, 2).Draw(rt, "with-default-method") == 0
+				o := gen.Opts{MaxDepth: rapid.IntRange(1, 3).Draw(rt, "maxdepth"), Flags: true, PtrHeavy: true, MaxFields: 3, Custom: withDefault}
 				b := gen.New(rt, o)
 				b.Method("M0", o.MaxDepth)
-				b.Method("M1", o.MaxDepth)
+				if withDefault {
+					// a default constructor (with or without default:update) does not stand in for the flag
+					b.DefaultMethod("D0", max(o.MaxDepth, 2))
+					s.Label("flag-required:with-default-method")
+				} else {
+					b.Method("M1", o.MaxDepth)
+				}
 				b.Conv.Settings.EnumOff = true
 				had := b.Conv.Settings.ZeroPtr
 				withhold := had && rapid.Bool().Draw(rt, "withhold-flag")
